@@ -566,9 +566,18 @@ pub mod frames {
             loop {
                 let mut buf = Frame::new();
                 let (_sz, addr) = buf.recv_from(&self.socket).await?;
-                if self.remote.is_none() {
-                    self.socket.connect(addr).await?;
-                    self.remote = Some(addr);
+                match self.remote {
+                    None => {
+                        self.socket.connect(addr).await?;
+                        self.remote = Some(addr);
+                    }
+                    // connect() does not empty the queue: what another sender got into it before is still
+                    // there, and is not part of this client's session
+                    Some(remote) if remote != addr => {
+                        tracing::debug!("socks udp: datagram from {} dropped, session of {}", addr, remote);
+                        continue;
+                    }
+                    Some(_) => {}
                 }
                 // RSV RSV FRAG ATYP: fragments are not reassembled here, and a piece of a datagram is not a
                 // datagram - it is dropped (RFC 1928), not forwarded as if it were complete
